@@ -155,6 +155,16 @@ func Exec(f []string) (string, bool) {
 				b2i(a2.MatchVersionPrerelease(fresh)), b2i(b2.MatchVersionPrerelease(fresh)), rpm)
 		}
 		return b.String(), true
+	case "diff":
+		sys, ok := SysNames[f[1]]
+		if !ok || len(f) != 4 {
+			return "bad-op", true
+		}
+		c, d, err := sys.Difference(fw.Unhx(f[2]), fw.Unhx(f[3]))
+		if err != nil {
+			return "err", true
+		}
+		return fmt.Sprintf("ok %d %d", fw.Sgn(c), int(d)), true
 	case "cmp":
 		sys, ok := SysNames[f[1]]
 		if !ok || len(f) != 4 {
